@@ -146,17 +146,17 @@ impl From<OpenUpValue> for UpValue {
 }
 
 #[derive(Default)]
-struct LocalUpValueMap(Vec<(Reg, SharedUpValue)>);
+struct LocalUpValueMap(Vec<(usize, SharedUpValue)>);
 
 impl LocalUpValueMap {
     pub fn get_or_insert(&mut self, ov: OpenUpValue) -> SharedUpValue {
         let OpenUpValue { pos, .. } = ov;
         self.0
             .iter()
-            .find_map(|(i2, v)| (pos == *i2 as usize).then_some(v.clone()))
+            .find_map(|(i2, v)| (pos == *i2).then_some(v.clone()))
             .unwrap_or_else(|| {
                 let v = Rc::new(RefCell::new(UpValue::Open(ov)));
-                self.0.push((pos as Reg, v.clone()));
+                self.0.push((pos, v.clone()));
                 v
             })
     }
@@ -166,24 +166,35 @@ impl LocalUpValueMap {
 //closure object dynamically allocated
 pub struct Closure {
     pub fn_proto_pos: usize, //position of function prototype in global_ftable
-    pub base_ptr: u64,       //base pointer to current closure, to calculate open upvalue
+    pub base_ptr: u64,       //base pointer of the frame that created the closure
     pub is_closed: bool,
     pub refcount: u64,
     pub(self) upvalues: Vec<SharedUpValue>,
     state_storage: StateStorage,
 }
 impl Closure {
+    /// `outer_upvalues` are the upvalues of the closure being executed, which creates this one.
     pub(self) fn new(
         program: &Program,
         base_ptr: u64,
         fn_i: usize,
         upv_map: &mut LocalUpValueMap,
+        outer_upvalues: &[SharedUpValue],
     ) -> Self {
         let fnproto = &program.global_fn_table[fn_i].1;
         let upvalues = fnproto
             .upindexes
             .iter()
-            .map(|ov| upv_map.get_or_insert(*ov))
+            .enumerate()
+            .map(|(i, ov)| match fnproto.outer_upindexes.get(i) {
+                // A variable of a function further out: share the creator's upvalue.
+                Some(Some(outer_i)) => outer_upvalues[*outer_i].clone(),
+                // A register of the creator: an open upvalue holds its position in the stack.
+                _ => upv_map.get_or_insert(OpenUpValue {
+                    pos: base_ptr as usize + ov.pos,
+                    ..*ov
+                }),
+            })
             .collect::<Vec<_>>();
         let mut state_storage = StateStorage::default();
         state_storage.resize(fnproto.state_skeleton.total_size() as usize);
@@ -590,17 +601,11 @@ impl Machine {
         let heap_obj = self.heap.get(heap_idx).expect("Invalid HeapIdx");
         Self::get_as::<ClosureIdx>(heap_obj.data[0])
     }
-    fn get_upvalue_offset(upper_base: usize, offset: OpenUpValue) -> usize {
-        upper_base + offset.pos
-    }
-    pub fn get_open_upvalue(
-        &self,
-        upper_base: usize,
-        ov: OpenUpValue,
-    ) -> (Range<usize>, &[RawVal]) {
-        let OpenUpValue { size, .. } = ov;
-        // log::trace!("upper base:{}, upvalue:{}", upper_base, offset);
-        let abs_pos = Self::get_upvalue_offset(upper_base, ov);
+    /// The stack words an open upvalue refers to (`ov.pos` counts from the bottom of the stack).
+    pub fn get_open_upvalue(&self, ov: OpenUpValue) -> (Range<usize>, &[RawVal]) {
+        let OpenUpValue {
+            pos: abs_pos, size, ..
+        } = ov;
         let end = abs_pos + size as usize;
         #[cfg(mimium_verif)]
         assert!(
@@ -705,10 +710,16 @@ impl Machine {
         self.base_pointer -= offset;
         nret
     }
-    fn allocate_closure(&mut self, fn_i: usize, upv_map: &mut LocalUpValueMap) -> ClosureIdx {
-        let idx = self
-            .closures
-            .insert(Closure::new(&self.prog, self.base_pointer, fn_i, upv_map));
+    /// `cls_i` is the closure being executed, if any.
+    fn allocate_closure(
+        &mut self,
+        fn_i: usize,
+        upv_map: &mut LocalUpValueMap,
+        cls_i: Option<ClosureIdx>,
+    ) -> ClosureIdx {
+        let outer_upvalues = cls_i.map_or(&[][..], |i| self.get_closure(i).upvalues.as_slice());
+        let cls = Closure::new(&self.prog, self.base_pointer, fn_i, upv_map, outer_upvalues);
+        let idx = self.closures.insert(cls);
         #[cfg(mimium_verif)]
         verif::record_heap(b'c', b'A', idx, true, 1);
         ClosureIdx(idx)
@@ -720,10 +731,11 @@ impl Machine {
         &mut self,
         fn_i: usize,
         upv_map: &mut LocalUpValueMap,
+        cls_i: Option<ClosureIdx>,
     ) -> heap::HeapIdx {
         // For now, create a traditional closure and store its index in the heap
         // TODO: Eventually migrate to storing closure data directly in heap
-        let closure_idx = self.allocate_closure(fn_i, upv_map);
+        let closure_idx = self.allocate_closure(fn_i, upv_map, cls_i);
 
         // Create a heap object containing the ClosureIdx
         // Layout: [closure_idx_as_raw_val]
@@ -839,6 +851,7 @@ impl Machine {
             self.base_pointer,
             fn_i,
             &mut LocalUpValueMap(vec![]),
+            &[],
         );
         // wrapper closure will not be released automatically.
         cls.is_closed = true;
@@ -857,8 +870,6 @@ impl Machine {
     /// Close all open upvalues of the given closure, copying stack values into
     /// the upvalue cells so the closure can outlive the current stack frame.
     fn close_upvalues_by_idx(&mut self, clsidx: ClosureIdx) {
-        let closure_base_ptr = self.get_closure(clsidx).base_ptr as usize;
-
         // Collect closure references to retain. Function-typed upvalues may be
         // stored either as heap-backed closures or as direct closure refs.
         let raw_refs = self
@@ -869,7 +880,7 @@ impl Machine {
                 let upv = &mut *upv.borrow_mut();
                 match upv {
                     UpValue::Open(ov) => {
-                        let (_range, ov_raw) = self.get_open_upvalue(closure_base_ptr, *ov);
+                        let (_range, ov_raw) = self.get_open_upvalue(*ov);
                         let is_closure = ov.is_closure;
                         *upv = UpValue::Closed(ov_raw.to_vec(), is_closure);
                         is_closure.then_some(ov_raw[0])
@@ -1018,7 +1029,7 @@ impl Machine {
                 }
                 Instruction::Closure(dst, fn_index) => {
                     let fn_proto_pos = self.get_stack(fn_index as i64) as usize;
-                    let vaddr = self.allocate_closure(fn_proto_pos, &mut upv_map);
+                    let vaddr = self.allocate_closure(fn_proto_pos, &mut upv_map, cls_i);
                     local_closures.push(vaddr);
                     self.set_stack(dst as i64, Self::to_value(vaddr));
                 }
@@ -1028,7 +1039,7 @@ impl Machine {
                 // New heap-based instructions (Phase 4)
                 Instruction::MakeHeapClosure(dst, fn_index, _size) => {
                     let fn_proto_pos = self.get_stack(fn_index as i64) as usize;
-                    let heap_idx = self.allocate_heap_closure(fn_proto_pos, &mut upv_map);
+                    let heap_idx = self.allocate_heap_closure(fn_proto_pos, &mut upv_map, cls_i);
                     local_heap_closures.push(heap_idx);
                     // Store the heap index (not closure index) in the register
                     self.set_stack(dst as i64, Self::to_value(heap_idx));
@@ -1189,8 +1200,7 @@ impl Machine {
                         let rv = &upvalues[index as usize];
                         let vs = match &*rv.borrow() {
                             UpValue::Open(i) => {
-                                let upper_base = cls.base_ptr as usize;
-                                let (range, _rawv) = self.get_open_upvalue(upper_base, *i);
+                                let (range, _rawv) = self.get_open_upvalue(*i);
                                 Err(range)
                             }
                             UpValue::Closed(rawval, _) => {
@@ -1211,14 +1221,13 @@ impl Machine {
                 Instruction::SetUpValue(index, src, size) => {
                     let up_i = cls_i.unwrap();
                     let cls = self.get_closure(up_i);
-                    let upper_base = cls.base_ptr as usize;
                     let upvalues = &cls.upvalues;
                     let (_range, v) = self.get_stack_range(src as i64, size);
                     let rv = &mut *upvalues[index as usize].borrow_mut();
                     match rv {
                         UpValue::Open(OpenUpValue { pos: i, size, .. }) => {
                             let (range, _v) = self.get_stack_range(src as i64, *size);
-                            let dest = upper_base + *i;
+                            let dest = *i;
                             unsafe {
                                 //force borrow because closure cell and stack never collisions
                                 let dst = slice::from_raw_parts_mut(
